@@ -155,7 +155,8 @@ fn run(case: &Case, out: &mut Out) {
                     out.obs(&[ts("skipped")]);
                     continue;
                 }
-                let expected = shadow.lookup(&s(h), &s(p), &Method::new(m)).ok().and_then(|r| r.rewritten_host);
+                // the listener looks the request host up lower-cased (RFC 9110 4.2.3)
+                let expected = shadow.lookup(&s(h).to_ascii_lowercase(), &s(p), &Method::new(m)).ok().and_then(|r| r.rewritten_host);
                 match http_request(front, &s(m), &s(h), &s(p)) {
                     Ok((status, loc)) => {
                         out.obs(&[tn(status), ts(&loc.clone().unwrap_or_else(|| "none".into()).replace('.', "_"))]);
